@@ -31,6 +31,18 @@ func snapN(g *hermes.GlobalVarsMain) nCounters {
 	return nCounters{sumC1(g), sumMin(g), g.UMS, g.N2onitsum, g.AUFNASUM, g.OUTSUM, g.DRAINLOSS, g.CUMDENIT}
 }
 
+// counterUlp: the cumulative counters only resolve differences down to their own floating-point spacing; after an
+// (flagged) unstable episode they can be astronomically large and swallow a day's fluxes
+func counterUlp(c nCounters) float64 {
+	m := 0.0
+	for _, x := range []float64{c.c1, c.min, c.ums, c.n2onit, c.aufna, c.outsum, c.drainloss, c.cumdenit} {
+		if a := math.Abs(x); a > m {
+			m = a
+		}
+	}
+	return 8 * m * 2.220446049250313e-16
+}
+
 // =====================================================================================
 // C02: soil mineral N mass balance
 // =====================================================================================
@@ -144,7 +156,7 @@ func (m *monC02) Event(ev *hermes.VerifEvent, rc *RunCtx) {
 			dC := post.c1 - m.preNitro.c1
 			rhs := dn*wdt - (post.aufna - m.preNitro.aufna) - (post.outsum - m.preNitro.outsum) - (post.drainloss - m.preNitro.drainloss)
 			res := dC - rhs
-			if math.Abs(res-m.clampSub) > tolFor(post.c1, dn*wdt, post.aufna-m.preNitro.aufna, post.outsum-m.preNitro.outsum, m.clampSub) || !finite(res) {
+			if math.Abs(res-m.clampSub) > tolFor(post.c1, dn*wdt, post.aufna-m.preNitro.aufna, post.outsum-m.preNitro.outsum, m.clampSub)+counterUlp(post) || !finite(res) {
 				sig := "substep_n_balance"
 				if drainUp {
 					sig = "drain_layer_upward_flux"
@@ -177,8 +189,14 @@ func (m *monC02) Event(ev *hermes.VerifEvent, rc *RunCtx) {
 			(end.outsum - m.pre.outsum) - (end.drainloss - m.pre.drainloss) - (end.cumdenit - m.pre.cumdenit)
 		res := dC - rhs
 		trunc := math.Abs(float64(int(m.steps))*m.wdt-1) > 1e-9
-		if math.Abs(res-m.clampDay) > tolFor(end.c1, end.min-m.pre.min, end.aufna-m.pre.aufna, end.outsum-m.pre.outsum, end.drainloss-m.pre.drainloss, m.clampDay)*10 || !finite(res) {
+		if counterUlp(end) > 1e-9 {
+			rc.Cov("days_counters_too_large_to_resolve", 1)
+		}
+		if math.Abs(res-m.clampDay) > tolFor(end.c1, end.min-m.pre.min, end.aufna-m.pre.aufna, end.outsum-m.pre.outsum, end.drainloss-m.pre.drainloss, m.clampDay)*10+counterUlp(end)*100 || !finite(res) {
 			sig := "n_balance_residual"
+			if end.cumdenit-m.pre.cumdenit > 0 && math.Abs(res-m.clampDay) <= (end.cumdenit-m.pre.cumdenit)*(1+1e-9) && (g.N < 9 && len(g.BART[0]) > 0 && g.BART[0][0] == 'H' || g.N < 3) {
+				sig = "denitrification_below_profile"
+			}
 			if trunc {
 				sig = "substep_truncation"
 			} else if m.drainUp {
